@@ -1,8 +1,10 @@
 //! ivk — one sub-command per property. `ivk <ID> <quick|thorough>` or `ivk <ID> --replay <file>`.
 
 mod board_checks;
+mod c04;
 mod common;
 mod families;
+mod input_checks;
 mod selftest;
 
 use board_checks::*;
@@ -22,7 +24,9 @@ fn main() {
     if id == "selftest" {
         std::process::exit(selftest::run());
     }
-    silence_panics();
+    if std::env::var("IVK_LOUD").is_err() {
+        silence_panics();
+    }
     if args.len() >= 4 && args[2] == "--replay" {
         std::env::set_var("IVK_NO_EVIDENCE", "1");
         std::process::exit(replay(id, &args[3]));
@@ -37,6 +41,10 @@ fn main() {
         "C03" => run_board(Prop::C03, tier),
         "C05" => run_board(Prop::C05, tier),
         "C06" => run_board(Prop::C06, tier),
+        "C04" => c04::run(tier),
+        "C12" => input_checks::run_c12(tier),
+        "C13" => input_checks::run_c13(tier),
+        "C14" => input_checks::run_c14(tier),
         _ => {
             eprintln!("unknown check {}", id);
             2
@@ -61,6 +69,15 @@ fn replay(id: &str, path: &str) -> i32 {
         }
     };
     let case = &doc["case"];
+    match id {
+        "C04" => return c04::replay(case),
+        "C13" => return input_checks::replay_c13(case),
+        "C14" => return input_checks::replay_c14(case),
+        "C12" => {
+            input_checks::replay_c12(case);
+        }
+        _ => {}
+    }
     let rep = Reporter::new(id);
     let started = Instant::now();
     let prop = match id {
